@@ -64,6 +64,10 @@ func goroutinesOf(s sigSpec, uniq int, firstID int, lvl stack.Similarity) []*sta
 		g.Locked = s.Locked
 		for _, f := range s.Frames {
 			pkg := "example.com/pkg"
+			if f.Line%2 == 1 {
+				// a package that merely lives in a directory named main is not package main
+				pkg = "example.com/tools/main"
+			}
 			if f.Main {
 				pkg = "main"
 			}
